@@ -199,36 +199,154 @@ theorem find_tag_none (p : Entry × Loc → Bool) (t : Loc) (l : List Entry) (h 
   | nil => rfl
   | cons e r ih => simp only [tag, List.map_cons, List.find?_cons, h e] at ih ⊢; exact ih
 
-theorem refines_step (g : Ghost) (s : State) (op : Op) (h : Refines g s) :
+/-- Nothing is in flight: no flush goroutine is waiting to run and the flag is down. -/
+def Quiet (s : State) : Prop := s.flushPending = false ∧ s.tasks = 0
+
+theorem push_ne_nil (cap : Nat) (hcap : 0 < cap) (mem : List Entry) (e : Entry) : push cap mem e ≠ [] := by
+  rw [push_eq_drop]
+  intro h
+  have := congrArg List.length h
+  simp at this
+  omega
+
+theorem ringCap_pos (c : Conf) : 0 < ringCap c := by unfold ringCap; split <;> omega
+
+/-- With nothing in flight, `Add` and the completion of the flush goroutine it
+starts are `addEntry`. -/
+theorem runTasks_addRaw (s : State) (e : Entry) (hq : Quiet s) : runTasks (addRaw s e) = addEntry s e := by
+  obtain ⟨hf, ht⟩ := hq
+  unfold addRaw addEntry
+  by_cases hen : s.conf.enabled = true
+  · simp only [hen, Bool.not_true, Bool.false_eq_true, if_false, hf, Bool.not_false, Bool.true_and]
+    by_cases hc : (s.conf.fileEnabled && decide ((push (ringCap s.conf) s.mem e).length ≥ s.conf.memSize)) = true
+    · simp only [hc, if_true, runTasks, ht, Nat.zero_add, runTasksN, runTask, flush,
+        push_ne_nil _ (ringCap_pos s.conf), if_false]
+    · simp only [hc, Bool.false_eq_true, if_false, runTasks, ht, runTasksN]
+  · simp only [hen, Bool.not_false, if_true, runTasks, ht, runTasksN]
+
+theorem quiet_flush (s : State) (hq : Quiet s) : Quiet (flush s) := by
+  unfold flush Quiet at *
+  split <;> simp_all
+
+theorem quiet_addEntry (s : State) (e : Entry) (hq : Quiet s) : Quiet (addEntry s e) := by
+  unfold addEntry
+  split
+  · exact hq
+  · dsimp only
+    split
+    · exact quiet_flush _ hq
+    · exact hq
+
+theorem quiet_applyThen (s : State) (t : Then) (hq : Quiet s) : Quiet (applyThen s t) := by
+  cases t with
+  | clear => exact ⟨rfl, hq.2⟩
+  | shutdown => simp only [applyThen, shutdown]; split; exact quiet_flush s hq; exact hq
+  | restart m f en => exact ⟨rfl, rfl⟩
+
+/-- The clear / shutdown / restart that overtakes the flush goroutine leads to the
+same state as the one that lets it run first. -/
+theorem addThen_confluent (s : State) (e : Entry) (t : Then) (hq : Quiet s) :
+    runTasks (applyThen (addRaw s e) t) = applyThen (addEntry s e) t := by
+  obtain ⟨hf, ht⟩ := hq
+  have hcap := push_ne_nil _ (ringCap_pos s.conf) s.mem e
+  unfold addRaw addEntry
+  by_cases hen : s.conf.enabled = true
+  · simp only [hen, Bool.not_true, Bool.false_eq_true, if_false, hf, Bool.not_false, Bool.true_and]
+    by_cases hc : (s.conf.fileEnabled && decide ((push (ringCap s.conf) s.mem e).length ≥ s.conf.memSize)) = true
+    · have hfe : s.conf.fileEnabled = true := by
+        simp only [Bool.and_eq_true] at hc; exact hc.1
+      simp only [hc, if_true]
+      cases t with
+      | clear =>
+        simp [applyThen, clear, runTasks, ht, runTasksN, runTask, flush, hcap]
+      | shutdown =>
+        simp [applyThen, shutdown, hfe, runTasks, ht, runTasksN, runTask, flush, hcap]
+      | restart m f en =>
+        simp [applyThen, restart, shutdown, hfe, runTasks, runTasksN, flush, hcap]
+    · simp only [hc, Bool.false_eq_true, if_false]
+      cases t with
+      | clear => simp [applyThen, clear, runTasks, ht, runTasksN]
+      | shutdown =>
+        simp only [applyThen, shutdown]
+        split <;> simp [flush, runTasks, ht, runTasksN] <;> split <;> simp [ht, runTasksN]
+      | restart m f en => simp [applyThen, restart, runTasks, runTasksN]
+  · simp only [hen, Bool.not_false, if_true]
+    cases t with
+    | clear => simp [applyThen, clear, runTasks, ht, runTasksN]
+    | shutdown =>
+      simp only [applyThen, shutdown]
+      split <;> simp [flush, runTasks, ht, runTasksN] <;> split <;> simp [ht, runTasksN]
+    | restart m f en => simp [applyThen, restart, runTasks, runTasksN]
+
+theorem refines_addEntry (g : Ghost) (s : State) (e : Entry) (h : Refines g s) :
+    Refines (gAdd g e) (addEntry s e) := by
+  have hl := h.1
+  have hc := h.2
+  simp only [gAdd, addEntry, hc]
+  by_cases hen : s.conf.enabled = true
+  · simp only [hen, Bool.not_true, Bool.false_eq_true, if_false]
+    have hlog : trimMem (ringCap s.conf) (g.log ++ [(e, Loc.mem)]) =
+        tagged { s with mem := push (ringCap s.conf) s.mem e } := by
+      rw [hl, tagged]
+      have : tag .rot s.rot ++ tag .cur s.cur ++ tag .mem s.mem ++ [(e, Loc.mem)] =
+          tag .rot s.rot ++ tag .cur s.cur ++ tag .mem (s.mem ++ [e]) := by simp [tag]
+      rw [this, trimMem_tagged, push_eq_drop]
+      rfl
+    rw [hlog]
+    have hcnt : countLoc .mem (tagged { s with mem := push (ringCap s.conf) s.mem e }) =
+        (push (ringCap s.conf) s.mem e).length := (countLoc_tagged _).1
+    rw [hcnt]
+    split
+    · exact refines_flush _ _ ⟨rfl, rfl⟩
+    · exact ⟨rfl, rfl⟩
+  · simp only [hen, Bool.not_false, if_true]
+    exact h
+
+theorem refines_shutdown (g : Ghost) (s : State) (h : Refines g s) :
+    Refines (if g.conf.fileEnabled then gFlush g else g) (shutdown s) := by
+  simp only [shutdown, h.2]
+  split
+  · exact refines_flush g s h
+  · exact h
+
+theorem refines_clear (g : Ghost) (s : State) (h : Refines g s) :
+    Refines { g with log := [] } (clear s) := ⟨by simp [tagged, clear], h.2⟩
+
+theorem refines_restart (g : Ghost) (s : State) (m : Nat) (f en : Bool) (h : Refines g s) :
+    Refines (gRestart g m f en) (restart s m f en) := by
+  have hc := h.2
+  simp only [gRestart, restart, shutdown, hc]
+  have key : ∀ g' s', Refines g' s' →
+      Refines { log := g'.log.filter (fun x => x.2 ≠ Loc.mem),
+                conf := { g'.conf with memSize := m, fileEnabled := f, enabled := en } }
+        { s' with mem := [], flushPending := false, tasks := 0,
+                  conf := { s'.conf with memSize := m, fileEnabled := f, enabled := en } } := by
+    intro g' s' h'
+    refine ⟨?_, by rw [h'.2]⟩
+    simp only [h'.1, tagged, List.filter_append]
+    rw [filter_tag _ .rot s'.rot true (by intro e; simp), filter_tag _ .cur s'.cur true (by intro e; simp),
+      filter_tag _ .mem s'.mem false (by intro e; simp)]
+    simp
+  split
+  · exact key _ _ (refines_flush g s h)
+  · exact key _ _ h
+
+theorem refines_step (g : Ghost) (s : State) (op : Op) (h : Refines g s) (hq : Quiet s) :
     Refines (gStep g op) (step s op) := by
   have hl := h.1
   have hc := h.2
   cases op with
   | add e =>
-    simp only [gStep, step, addEntry, hc]
-    by_cases hen : s.conf.enabled = true
-    · simp only [hen, Bool.not_true, Bool.false_eq_true, if_false]
-      have hlog : trimMem (ringCap s.conf) (g.log ++ [(e, Loc.mem)]) =
-          tagged { s with mem := push (ringCap s.conf) s.mem e } := by
-        rw [hl, tagged]
-        have : tag .rot s.rot ++ tag .cur s.cur ++ tag .mem s.mem ++ [(e, Loc.mem)] =
-            tag .rot s.rot ++ tag .cur s.cur ++ tag .mem (s.mem ++ [e]) := by simp [tag]
-        rw [this, trimMem_tagged, push_eq_drop]
-        rfl
-      rw [hlog]
-      have hcnt : countLoc .mem (tagged { s with mem := push (ringCap s.conf) s.mem e }) =
-          (push (ringCap s.conf) s.mem e).length := (countLoc_tagged _).1
-      rw [hcnt]
-      split
-      · exact refines_flush _ _ ⟨rfl, rfl⟩
-      · exact ⟨rfl, rfl⟩
-    · simp only [hen, Bool.not_false, if_true]
-      exact h
-  | shutdown =>
-    simp only [gStep, step, shutdown, hc]
-    split
-    · exact refines_flush g s h
-    · exact h
+    simp only [gStep, step, runTasks_addRaw s e hq]
+    exact refines_addEntry g s e h
+  | addThen e t =>
+    simp only [step, addThen_confluent s e t hq]
+    have h1 := refines_addEntry g s e h
+    cases t with
+    | clear => exact refines_clear _ _ h1
+    | shutdown => exact refines_shutdown _ _ h1
+    | restart m f en => exact refines_restart _ _ m f en h1
+  | shutdown => exact refines_shutdown g s h
   | rotate =>
     simp only [gStep, step, rotate]
     have hcnt : countLoc .cur g.log = s.cur.length := by rw [hl]; exact (countLoc_tagged s).2.1
@@ -265,24 +383,8 @@ theorem refines_step (g : Ghost) (s : State) (op : Op) (h : Refines g s) :
       · have hne : s.cur ≠ [] := by rw [hcur]; simp
         have := refines_rotate g s h hne
         simpa [rotate, hcur] using this
-  | clear =>
-    simp only [gStep, step, clear]
-    exact ⟨by simp [tagged], hc⟩
-  | restart m f en =>
-    simp only [gStep, step, restart, shutdown, hc]
-    have key : ∀ g' s', Refines g' s' →
-        Refines { log := g'.log.filter (fun x => x.2 ≠ Loc.mem),
-                  conf := { g'.conf with memSize := m, fileEnabled := f, enabled := en } }
-          { s' with mem := [], conf := { s'.conf with memSize := m, fileEnabled := f, enabled := en } } := by
-      intro g' s' h'
-      refine ⟨?_, by rw [h'.2]⟩
-      simp only [h'.1, tagged, List.filter_append]
-      rw [filter_tag _ .rot s'.rot true (by intro e; simp), filter_tag _ .cur s'.cur true (by intro e; simp),
-        filter_tag _ .mem s'.mem false (by intro e; simp)]
-      simp
-    split
-    · exact key _ _ (refines_flush g s h)
-    · exact key _ _ h
+  | clear => exact refines_clear g s h
+  | restart m f en => exact refines_restart g s m f en h
   | putConf en an ivl ign =>
     simp only [gStep, step, putConf]
     split
@@ -292,5 +394,25 @@ theorem refines_step (g : Ghost) (s : State) (op : Op) (h : Refines g s) :
     simp only [gStep, step, setClients]
     exact ⟨hl, by simp [hc]⟩
 
+/-- Every operation ends with nothing in flight. -/
+theorem quiet_step (s : State) (op : Op) (hq : Quiet s) : Quiet (step s op) := by
+  cases op with
+  | add e => simp only [step, runTasks_addRaw s e hq]; exact quiet_addEntry s e hq
+  | addThen e t =>
+    simp only [step, addThen_confluent s e t hq]
+    exact quiet_applyThen _ t (quiet_addEntry s e hq)
+  | shutdown => exact quiet_applyThen s .shutdown hq
+  | rotate => simp only [step, rotate]; split <;> exact hq
+  | rotCheck now =>
+    simp only [step, rotCheck]
+    split
+    · exact hq
+    · split
+      · exact hq
+      · simp only [rotate]; split <;> exact hq
+  | clear => exact quiet_applyThen s .clear hq
+  | restart m f en => exact quiet_applyThen s (.restart m f en) hq
+  | putConf en an ivl ign => simp only [step, putConf]; split <;> exact hq
+  | setClients tbl => exact hq
 
 end AGH.C07
